@@ -137,7 +137,3 @@ func compactModel(out string) string {
 	return s
 }
 
-func runCheck(repo, prop, tier string, rest []string) int {
-	fmt.Fprintln(os.Stderr, "check not built yet")
-	return 3
-}
